@@ -32,8 +32,8 @@ type c20FreeCase struct {
 	Writes   int    `json:"writes"`
 	UpdC     []bool `json:"updC"` // request flags of the client's UpdateKeys calls
 	UpdS     []bool `json:"updS"`
-	LateC    int    `json:"lateC"`   // milliseconds the client waits before its first UpdateKeys (asymmetric histories: the peer has
-	LateS    int    `json:"lateS"`   // already updated several times when this side updates for the first time)
+	LateC    int    `json:"lateC"`   // the client's first UpdateKeys waits until the PEER has committed this many updates of its own
+	LateS    int    `json:"lateS"`   // (asymmetric histories: one side is several generations ahead when the other updates)
 	Callers  int    `json:"callers"` // goroutines per side sharing the update list
 	Craft    string `json:"craft"`   // "", "c" or "s": inject a record under that side's next generation
 	Suite    string `json:"suite"`
@@ -204,7 +204,14 @@ func runC20Free(cc *c20FreeCase, keep bool) c20FreeResult { //nolint:cyclop,goco
 				defer wg.Done()
 				lr := rand.New(rand.NewSource(seed)) //nolint:gosec
 				if late := map[string]int{"c": cc.LateC, "s": cc.LateS}[p.name]; late > 0 {
-					time.Sleep(time.Duration(late) * time.Millisecond)
+					// wait until the PEER has committed that many updates of its own (its sending epoch starts at 3)
+					other := d.peer(map[string]string{"c": "s", "s": "c"}[p.name])
+					for dl := time.Now().Add(4 * time.Second); time.Now().Before(dl); {
+						if int(commonOf(other.conn).LocalEpoch()) >= 3+late {
+							break
+						}
+						time.Sleep(200 * time.Microsecond)
+					}
 				}
 				for {
 					umu.Lock()
